@@ -6,6 +6,7 @@ import (
 	"net"
 	"net/netip"
 	"reflect"
+	"sync"
 	"time"
 
 	"github.com/uhppoted/uhppote-core/messages"
@@ -65,8 +66,45 @@ var (
 
 // genField sets f to a generated in-domain value (dates / times are civil values built in
 // time.Local, the way the library itself builds them) and returns its abstract form.
+// transitionDays: the civil days (in the process-local zone) on which the zone's offset changes, 1900-2100 -
+// the days on which a decode that goes through local midnight or adds a clock reading to it goes wrong
+var transitionDaysOnce sync.Once
+var transitionDaysPool [][3]int
+
+func transitionDays() [][3]int {
+	transitionDaysOnce.Do(func() {
+		seen := map[[3]int]bool{}
+		t := time.Date(1900, 1, 1, 12, 0, 0, 0, time.Local)
+		limit := time.Date(2100, 1, 1, 0, 0, 0, 0, time.UTC)
+		for i := 0; i < 2000; i++ {
+			_, end := t.ZoneBounds()
+			if end.IsZero() || end.After(limit) {
+				break
+			}
+			for _, x := range []time.Time{end.Add(-time.Second), end} {
+				y, m, d := x.Date()
+				k := [3]int{y, int(m), d}
+				if !seen[k] && dayExists(y, int(m), d) {
+					seen[k] = true
+					transitionDaysPool = append(transitionDaysPool, k)
+				}
+			}
+			t = end.Add(time.Hour)
+		}
+	})
+	return transitionDaysPool
+}
+
 func genField(r *rand.Rand, f reflect.Value, zeroOK bool) any {
 	g := &G{r: r, inDomain: true}
+	// a quarter of the calendar values fall on a day on which the process zone changes its offset
+	if pool := transitionDays(); len(pool) > 0 && r.Intn(4) == 0 {
+		switch f.Type() {
+		case rtDate, rtDateP, rtDateTime, rtDTP:
+			g.dates = [][3]int{pool[r.Intn(len(pool))]}
+			zeroOK = false
+		}
+	}
 	local := func(y, m, d, h, mi, s int) time.Time { return time.Date(y, time.Month(m), d, h, mi, s, 0, time.Local) }
 	switch f.Type() {
 	case rtU8:
@@ -147,8 +185,11 @@ func genField(r *rand.Rand, f reflect.Value, zeroOK bool) any {
 			}
 			return M{"t": "zero"}
 		}
-		for {
-			y, m, d := g.ymd()
+		y, m, d := g.ymd()
+		for try := 0; ; try++ {
+			if try%20 == 19 {
+				y, m, d = g.ymd()
+			}
 			h, mi, s := r.Intn(24), r.Intn(60), r.Intn(60)
 			t := local(y, m, d, h, mi, s)
 			yy, mm, dd := t.Date()
@@ -173,6 +214,11 @@ func genField(r *rand.Rand, f reflect.Value, zeroOK bool) any {
 		y := 2000 + r.Intn(69)
 		m := 1 + r.Intn(12)
 		d := 1 + r.Intn(daysIn(y, m))
+		if pool := transitionDays(); len(pool) > 0 && r.Intn(3) == 0 {
+			if x := pool[r.Intn(len(pool))]; x[0] >= 2000 && x[0] <= 2068 {
+				y, m, d = x[0], x[1], x[2]
+			}
+		}
 		t := time.Date(y, time.Month(m), d, 0, 0, 0, 0, time.Local)
 		if yy, mm, dd := t.Date(); yy != y || int(mm) != m || dd != d {
 			t = local(y, m, d, 12, 0, 0)
